@@ -15,12 +15,12 @@ var osFuncs = map[string]bool{
 	"Open": true, "OpenFile": true, "Create": true, "CreateTemp": true, "MkdirAll": true, "Mkdir": true,
 	"MkdirTemp": true, "Remove": true, "RemoveAll": true, "Rename": true, "Stat": true, "Lstat": true,
 	"ReadDir": true, "ReadFile": true, "WriteFile": true, "Readlink": true, "Symlink": true, "Chmod": true,
-	"Getwd": true, "Chdir": true, "Environ": true, "Getpid": true, "Exit": true, "FindProcess": true,
+	"Link": true, "Getwd": true, "Chdir": true, "Environ": true, "Getpid": true, "Exit": true, "FindProcess": true,
 }
 
 // os functions that touch durable state but have no simos counterpart: refuse to guess.
 var osUnsupported = map[string]bool{
-	"Truncate": true, "Link": true, "Chown": true, "Lchown": true, "Chtimes": true, "StartProcess": true,
+	"Truncate": true, "Chown": true, "Lchown": true, "Chtimes": true, "StartProcess": true,
 	"CopyFS": true, "Pipe": true, "Getppid": true,
 }
 
